@@ -27,6 +27,7 @@ class Gen:
         self.stats = {}
         self.bodies_info = []
         self.experts = []
+        self.nslot = 0
 
     def count(self, k):
         self.stats[k] = self.stats.get(k, 0) + 1
@@ -55,6 +56,9 @@ class Gen:
         return c
 
     # ---- node choice
+    def obs_node_ok(self, o):
+        return self.obs[o]["node"] is not None
+
     def vnodes(self):
         return [k for k, n in enumerate(self.nodes) if not n["pair"]]
 
@@ -398,6 +402,115 @@ class Gen:
         self.obs.append({"node": m, "clones": 1, "dis": False})
         self.count("motif_shared")
 
+    def motif_leak(self):
+        """a node built inside a (nested) bind closure is handed out through a shared cell and observed directly;
+        later the outer left-hand side changes (the node must become invalid) and then the node's own input"""
+        self.mk_var(); outer = len(self.nodes) - 1
+        self.mk_var(); inner = len(self.nodes) - 1
+        self.mk_var(); x = len(self.nodes) - 1
+        f = self.new_fn(1, m=7)
+        slot = self.nslot; self.nslot += 1
+        nested = self.rng.random() < 0.5
+        bi = self.nbody; self.nbody += 1
+        self.defs.append(f"body b{bi} 2 map f{f} n{x} ; pub s{slot} %0 ; ret %0 | map f{f} n{x} ; pub s{slot} %0 ; ret %0")
+        self.bodies_info.append(bi)
+        if nested:
+            bo = self.nbody; self.nbody += 1
+            self.defs.append(f"body b{bo} 2 bind b{bi} n{inner} ; ret %0 | bind b{bi} n{inner} ; ret %0")
+            self.bodies_info.append(bo)
+            self.act(f"bind b{bo} n{outer}")
+        else:
+            self.act(f"bind b{bi} n{outer}")
+        m = self.add_node("bind")
+        self.act(f"observe n{m}")
+        self.obs.append({"node": m, "clones": 1, "dis": False})
+        self.act("stabilise")
+        self.act(f"observe @s{slot}")
+        self.obs.append({"node": None, "clones": 1, "dis": False})
+        leaked = len(self.obs) - 1
+        if self.rng.random() < 0.6:
+            self.act(f"subscribe o{leaked} h0")
+            self.tokens.append(leaked)
+        self.act("stabilise")
+        vo, vi, vx = self.nodes[outer]["var"], self.nodes[inner]["var"], self.nodes[x]["var"]
+        seq = [f"set v{vx} {self.rng.randint(0, 4)}", f"set v{vo} {self.rng.randint(0, 4)}"]
+        if self.rng.random() < 0.5:
+            seq.reverse()
+        if nested and self.rng.random() < 0.5:
+            seq.append(f"set v{vi} {self.rng.randint(0, 4)}")
+        for a in seq:
+            self.act(a)
+        self.act("stabilise")
+        self.act(f"set v{vx} {self.rng.randint(0, 4)}")
+        self.act("stabilise")
+        self.count("motif_leak" + ("_nested" if nested else ""))
+
+    def motif_expert_stale(self):
+        """two expert nodes sharing one driver whose own value never changes and which only calls make_stale;
+        one of them is unobserved while the driver runs and observed again later"""
+        self.mk_var(); v = len(self.nodes) - 1
+        es = []
+        for _ in range(2):
+            self.act(f"expert {self.rng.choice(['sumdeps', 'cbsum'])} 7")
+            es.append(self.add_node("expert")); self.experts.append(es[-1])
+        f = self.new_fn(1, [f"xstale n{es[0]}", f"xstale n{es[1]}"], m=1)
+        self.act(f"map f{f} n{v}")
+        d = self.add_node("driver")
+        for e in es:
+            self.act(f"adddep n{e} n{d} nocb")
+        # a second, changing dependency so that the sums are visible
+        g = self.new_fn(1, m=7)
+        self.act(f"map f{g} n{v}")
+        w = self.add_node("map")
+        self.act(f"adddep n{es[0]} n{w} cb")
+        obs_ids = []
+        for e in es:
+            self.act(f"observe n{e}")
+            self.obs.append({"node": e, "clones": 1, "dis": False}); obs_ids.append(len(self.obs) - 1)
+        self.act("stabilise")
+        vi = self.nodes[v]["var"]
+        self.act(f"disallow o{obs_ids[0]}"); self.obs[obs_ids[0]]["dis"] = True
+        self.act("stabilise")
+        self.act(f"set v{vi} {self.rng.randint(0, 4)}")
+        self.act("stabilise")
+        self.act(f"observe n{es[0]}")
+        self.obs.append({"node": es[0], "clones": 1, "dis": False})
+        self.act("stabilise")
+        self.act(f"set v{vi} {self.rng.randint(0, 4)}")
+        self.act("stabilise")
+        self.count("motif_expert_stale")
+
+    def motif_expert_late_target(self):
+        """an observed, computed expert node gets (from its driver) a dependency with a callback on a node that is
+        unnecessary at that moment but holds an up-to-date value (it was observed and unobserved before)"""
+        self.mk_var(); v = len(self.nodes) - 1
+        self.mk_var(); t0 = len(self.nodes) - 1
+        g = self.new_fn(1, m=7)
+        self.act(f"map f{g} n{t0}")
+        target = self.add_node("map")
+        self.act(f"observe n{target}")
+        self.obs.append({"node": target, "clones": 1, "dis": False}); ot = len(self.obs) - 1
+        self.act(f"expert cbsum 7")
+        e = self.add_node("expert"); self.experts.append(e)
+        k = self.rng.choice([2, 3])
+        f = self.new_fn(1, [f"xsel n{e} cb ifnew " + " ".join([f"n{v}"] * (k - 1) + [f"n{target}"])])
+        self.act(f"map f{f} n{v}")
+        d = self.add_node("driver")
+        self.act(f"adddep n{e} n{d} nocb")
+        self.act(f"observe n{e}")
+        self.obs.append({"node": e, "clones": 1, "dis": False})
+        self.act("stabilise")
+        if ot >= 2:
+            self.act(f"dropobs o{ot}"); self.obs[ot]["clones"] -= 1
+        else:
+            self.act(f"disallow o{ot}"); self.obs[ot]["dis"] = True
+        self.act("stabilise")
+        vi = self.nodes[v]["var"]
+        for x in self.rng.sample(range(0, 5), 3):
+            self.act(f"set v{vi} {x}")
+            self.act("stabilise")
+        self.count("motif_expert_late_target")
+
     def motif_cutoff_reobserve(self):
         """a chain whose tail is often cut off (function with many collisions), observed, unobserved and
         observed again with and without writes in between"""
@@ -521,12 +634,17 @@ class Gen:
         rng = self.rng
         self.defs += ["proj p0 id", "proj p1 fst", "proj p2 snd",
                       "old g0 sum 5", "old g1 echo", "old g2 flag 1", "old g3 flag 0", "hdl h0",
-                      "hdl h1 modvar v0 1", "hdl h2 readobs o0"]
+                      "hdl h1 " + rng.choice(["modvar v0 1", "modvar v0 1", "replvar v0 2", "replwvar v0 1", "updvar v0 2", "setvar v0 3"]),
+                      "hdl h2 readobs o0"]
         for _ in range(rng.randint(1, 3)):
             self.mk_var()
         if self.profile in ("bind", "general", "static", "expert", "varw"):
             r = rng.random()
-            if r < 0.15 and self.profile != "static":
+            if self.profile == "expert" and r < 0.5:
+                (self.motif_expert_stale if r < 0.25 else self.motif_expert_late_target)()
+            elif r < 0.1 and self.profile != "static":
+                self.motif_leak()
+            elif r < 0.18 and self.profile != "static":
                 self.motif_two_binds()
             elif r < 0.3 and self.profile != "static":
                 self.motif_heights()
@@ -777,7 +895,7 @@ def gen_limits(rng, debug=True):
         f = nfn[0]; nfn[0] += 1
         defs.append(f"fn f{f} lin 7 0 " + " ".join("1" for _ in range(ar)))
         return f
-    variant = rng.choice(["chain", "chain", "reconf", "bindchain", "cycle1", "cycle2", "nested_fn", "nested_hdl"])
+    variant = rng.choice(["chain", "chain", "reconf", "bindchain", "cycle1", "cycle2", "cycle3", "nested_fn", "nested_hdl"])
     count("limits_" + variant)
     if variant.startswith("nested") and N < 3:
         N = 3
@@ -848,6 +966,26 @@ def gen_limits(rng, debug=True):
             defs.append(f"body b0 1 ret n{b}"); defs.append(f"body b1 1 ret n{a}")
             top = a
         acts.append(f"observe n{top}")
+        acts.append("expectpanic cyclic height-limit")
+        acts.append("stabilise")
+        acts.append("dropall")
+    elif variant == "cycle3":
+        # B0 = bind(v) returns a constant or the node that B1's closure built; B1 = bind(B0): the second choice closes
+        # a cycle whose way back is the scope edge (change detector of B1 -> node built on B1's right-hand side)
+        if N < 6:
+            N = 6
+            lines[1] = f"maxheight {N}"
+        v = var()
+        acts.append("const 1"); nodes += 1; c = nodes - 1
+        defs.append(f"body b0 2 ret n{c} | ret @s0")
+        acts.append(f"bind b0 n{v}"); nodes += 1; m0 = nodes - 1
+        f = fn(1)
+        defs.append(f"body b1 1 map f{f} n{c} ; pub s0 %0 ; ret %0")
+        acts.append(f"bind b1 n{m0}"); nodes += 1; m1 = nodes - 1
+        acts[0] = "var 0"
+        acts.append(f"observe n{m1}")
+        acts.append("stabilise")
+        acts.append("set v0 1")
         acts.append("expectpanic cyclic height-limit")
         acts.append("stabilise")
         acts.append("dropall")
